@@ -31,6 +31,9 @@ def scen_layouts(ch, params, out):
     twins = [ch.flag(f"twin_of_previous{i}") if i > 0 and params.get("twins") else False for i in range(n)]
     fw = ch.choose("framework", params.get("frameworks", ["base", "pydantic", "sqlmodel", "attrs", "dataclasses"]))
     policy = ch.choose("merge_policy", ["number_10 (nothing merges)", "default (twins merge into one model)"]) if any(twins) else "number_10"
+    incremental = bool(params.get("incremental")) and ch.flag("registry_fed_one_sample_at_a_time")
+    if incremental:
+        policy = "default, one merge per sample"
     # keys that name the models: plain (class name = camelized key) or keys whose class name is changed by the generator's name
     # conversion (reserved typing names get a suffix, non-ASCII letters are transliterated); and which layout is rendered first from
     # the registry (the conversion is written back into the model, so the second rendering sees converted names)
@@ -78,16 +81,34 @@ def scen_layouts(ch, params, out):
     out.info = {"parents": list(parents), "wraps": wraps, "twins": twins, "framework": fw, "policy": policy, "styled": bool(styled), "order": order}
     ctx = lambda: f"parents={parents} wraps={wraps} twins={twins} fw={fw} merge={policy} model_keys={'renamed' if styled else 'plain'} rendered={order}"
     try:
-        gen, reg, _ = pipeline.infer({"Root": samples}, merge=[ModelFieldsNumberMatch(10)] if policy.startswith("number") else None, dkf=None)
+        if incremental:
+            # the same registry is fed sample by sample with a merge after each: models merged in one round are merged again in the next
+            from json_to_models.generator import MetadataGenerator
+            from json_to_models.registry import ModelRegistry
+            gen = MetadataGenerator()
+            reg = ModelRegistry()       # default policy: equal models of successive samples merge in every round
+            for smp in samples + [samples[0]]:
+                reg.process_meta_data(gen.generate(smp), model_name="Root")
+                reg.merge_models(gen)
+            reg.generate_names()
+        else:
+            gen, reg, _ = pipeline.infer({"Root": samples}, merge=[ModelFieldsNumberMatch(10)] if policy.startswith("number") else None, dkf=None)
     except Exception as e:
         out.fail("inference_raises", f"{type(e).__name__}: {e} ({ctx()})", f"inference_raises:{type(e).__name__}")
         return
     nmodels = len(list(reg.models))
     kwargs = {"meta": True} if fw in ("attrs", "dataclasses") else {}
     texts, ems = {}, {}
+    # without twins every model of the document is referenced from exactly one place: the inferred graph must be a tree, however
+    # many merge rounds produced it (the parent links of the pointers are part of what a merge has to maintain)
+    # (fed sample by sample, two root samples that differ by an optional child need not merge into one root model)
+    tree_by_construction = not any(twins) and not (incremental and "optional" in wraps)
+    if tree_by_construction:
+        out.check(pipeline.is_tree(reg), "model_graph_not_a_tree", lambda: f"tree-shaped document, but the model graph is not a tree: "
+                  f"{[(m.name, sorted(str(getattr(p.parent, 'name', None)) for p in m.pointers if p.parent is not None)) for m in reg.models]} ({ctx()})", "model_graph_not_a_tree")
     try:
         for layout in order:
-            if layout == "nested" and not pipeline.is_tree(reg):
+            if layout == "nested" and not pipeline.is_tree(reg) and not tree_by_construction:
                 continue
             try:
                 texts[layout] = pipeline.emit(reg, fw, layout, **kwargs)
@@ -174,6 +195,8 @@ def parts(tier):
     if tier == "quick":
         return [
             CH("trees3", "vflib.props.c12:scen_layouts", {"models": 3, "twins": True}, shards=6, timeout=170, path_timeout=30),
+            CH("trees3_incremental_registry", "vflib.props.c12:scen_layouts", {"models": 3, "twins": True, "incremental": True, "frameworks": ["pydantic", "dataclasses"]},
+               shards=6, timeout=170, path_timeout=30),
             CH("trees3_converted_names", "vflib.props.c12:scen_layouts", {"models": 3, "model_keys": True, "frameworks": ["pydantic", "dataclasses", "attrs"]},
                shards=6, timeout=170, path_timeout=30),
             CH("flat_any_graph", "vflib.props.c12:scen_flat_any_graph",
